@@ -485,7 +485,7 @@ def r7f(prog, rep):
     order is and R7b that the transactions are sorted before they are split; a later re-sort by another key (trade date), an unstable
     sort (an adjustment row compares equal to its sale), a reverse / rotate / swap puts the rows of a security into an order in which
     the ledger was never meant to be walked."""
-    ELEM = re.compile(r'(\[|Vec<)(&(\'\w+ )?)?(portfolio::model::tx::Tx|portfolio::model::txdelta::TxDelta)\b')
+    ELEM = re.compile(r'^(&(\'\w+ )?(mut )?)*(\[|std::vec::Vec<)(&(\'\w+ )?)?(portfolio::model::tx::Tx|portfolio::model::txdelta::TxDelta)\b')
     REORDER = {'sort_by', 'sort_by_key', 'sort_by_cached_key', 'sort_unstable', 'sort_unstable_by', 'sort_unstable_by_key', 'select_nth_unstable',
                'select_nth_unstable_by', 'select_nth_unstable_by_key', 'reverse', 'rotate_left', 'rotate_right', 'swap', 'swap_remove', 'swap_with_slice'}
     want_fields = [('settlement_date',), ('read_index',)]
@@ -504,13 +504,16 @@ def r7f(prog, rep):
             n += 1
             owner = f.name.split('::{')[0]
             k = '%s|tx-sequence-arranged-only-by-the-tx-order|%s' % (owner, c.short)
-            if c.short == 'sort':
-                rep.ok('R7f', k, where=c.where(), fn=f.name, detail='stable sort by the element\'s own Ord')
+            is_delta = 'TxDelta' in t
+            # rows read from files carry distinct read indices, so no two Tx compare equal and an unstable sort by the same order gives
+            # the same result; a list of deltas does have ties (an adjustment row and its sale)
+            if c.short == 'sort' or (c.short == 'sort_unstable' and not is_delta):
+                rep.ok('R7f', k, where=c.where(), fn=f.name, detail='sorted by the element\'s own Ord')
                 continue
             why = None
-            if c.short in ('sort_by', 'sort_by_key') and len(c.args) > 1:
+            if c.short in ('sort_by', 'sort_by_key') + (() if is_delta else ('sort_unstable_by', 'sort_unstable_by_key')) and len(c.args) > 1:
                 g = mir._closure_fn_of(prog, f, c.args[1])
-                if g is not None and c.short == 'sort_by':
+                if g is not None and c.short in ('sort_by', 'sort_unstable_by'):
                     ch = ordering.chain_of_fn(prog, g)
                     if ch is not None and [a[1] for a, b in ch] == want_fields and [b[1] for a, b in ch] == want_fields and \
                             all(a[0] < b[0] for a, b in ch):
